@@ -185,26 +185,46 @@ def alpha(s):
     return re.sub(r"\$[A-Za-z_][A-Za-z0-9]*(?:_[a-z0-9]+)*(?:~[0-9]+)?", sub, s)
 
 
-def unreachable(frames, cx, n):
-    """A site guarded by a comparison that the intervals of its operands make impossible (the failing side of an always-true
-    `debug_assert!(i < N)`) cannot be reached."""
-    for fi, f in enumerate(frames):
-        if f.get("kind") != "if":
-            continue
-        c = hir.simp(f["expr"])
-        if not (c.get("k") == "bin" and c.get("op") in ("Lt", "Le", "Gt", "Ge", "Eq", "Ne") and "callee" not in c):
-            continue
-        before = panics.refinements(frames[:fi], cx, c)
+def cond_value(c, cx, before):
+    """True / False when the intervals of its operands decide the condition at that point, else None (comparisons, !, &&, ||)."""
+    c = hir.simp(c)
+    if not isinstance(c, dict):
+        return None
+    k = c.get("k")
+    if k == "lit" and c.get("t") == "bool":
+        return bool(c["v"])
+    if k == "un" and c.get("op") == "Not" and "callee" not in c:
+        v = cond_value(c["e"], cx, before)
+        return None if v is None else (not v)
+    if k == "bin" and c.get("op") in ("And", "Or") and "callee" not in c:
+        l, r = cond_value(c["l"], cx, before), cond_value(c["r"], cx, before)
+        if c["op"] == "And":
+            return False if (l is False or r is False) else (True if (l is True and r is True) else None)
+        return True if (l is True or r is True) else (False if (l is False and r is False) else None)
+    if k == "bin" and c.get("op") in ("Lt", "Le", "Gt", "Ge", "Eq", "Ne") and "callee" not in c:
         a, b = panics.interval(c["l"], cx, before, at=c), panics.interval(c["r"], cx, before, at=c)
         if a is None or b is None:
-            continue
+            return None
         op = c["op"]
         always = {"Lt": a[1] < b[0], "Le": a[1] <= b[0], "Gt": a[0] > b[1], "Ge": a[0] >= b[1], "Eq": a[0] == a[1] == b[0] == b[1],
                   "Ne": a[1] < b[0] or a[0] > b[1]}[op]
         never = {"Lt": a[0] >= b[1], "Le": a[0] > b[1], "Gt": a[1] <= b[0], "Ge": a[1] < b[0], "Eq": a[1] < b[0] or a[0] > b[1],
                  "Ne": a[0] == a[1] == b[0] == b[1]}[op]
-        if (f["val"] and never) or (not f["val"] and always):
-            return f"`{hirpp.expr(c)[:60]}` is always {'true' if always else 'false'} here ({a} vs {b})"
+        return True if always else (False if never else None)
+    return None
+
+
+def unreachable(frames, cx, n):
+    """A site guarded by a condition that the intervals of its operands make impossible (the failing side of an always-true
+    `debug_assert!(LO <= i && i < N)`) cannot be reached."""
+    for fi, f in enumerate(frames):
+        if f.get("kind") != "if":
+            continue
+        c = hir.simp(f["expr"])
+        before = panics.refinements(frames[:fi], cx, c)
+        v = cond_value(c, cx, before)
+        if v is not None and v != bool(f["val"]):
+            return f"`{hirpp.expr(c)[:60]}` is always {'true' if v else 'false'} here"
     return None
 
 
